@@ -577,12 +577,13 @@ Definition opt_py_eq (a b : option val) : bool :=
 
 Definition dict_del (k : val) (d : list (val * val)) : list (val * val) := filter (fun kv => negb (py_eq (fst kv) k)) d.
 
-(* false = the tree as it is (findings skip-default-none-default-crash, skip-default-drops-dict-kwargs);
-   true = with fixes/C01-skip-default-subclass-spec.patch: a default that is not a spec counts as "another class", and a
-   spec is deleted only if its dict_kwargs are the default's too (otherwise only its init_args go) *)
-Definition fx_subclass_trim : bool := false.
+(* fx = true: the tree since /repo 2b39397 (fixes/C01-skip-default-subclass-spec.patch): a default that is not a spec
+   counts as "another class", and a spec is deleted only if its dict_kwargs are the default's too (otherwise only its
+   init_args go).  fx = false: the tree before (findings skip-default-none-default-crash, skip-default-drops-dict-kwargs),
+   kept for the regression witnesses in Properties/C01.v *)
+Definition fx_subclass_trim : bool := true.
 
-Definition trim (t : cty) (j dj : val) : tres :=
+Definition trim_gen (fx_subclass_trim : bool) (t : cty) (j dj : val) : tres :=
   match spec_class j, j with
   | Some cp, VDict jd =>
       match (match dj with VDict dd => Some dd | _ => if fx_subclass_trim then Some [] else None end) with
@@ -615,6 +616,8 @@ Definition trim (t : cty) (j dj : val) : tres :=
       end
   | _, _ => if py_eq j dj then TDel else TKeep j
   end.
+
+Definition trim (t : cty) (j dj : val) : tres := trim_gen fx_subclass_trim t j dj.
 
 Definition dump_entry (vr : variant) (lf : leaf) (w : val) : entry :=
   match cleanup true (vr_skip_none vr) (lf_ty lf) (lf_def lf) w with
